@@ -108,6 +108,7 @@ int main(int argc, char** argv) {
         if (g_owner.load() == who.id) { g_active = -1; g_owner = -1; }
         else violation("harness-client-released-without-claim", g_owner.load(), static_cast<int>(who.id), 0);
     };
+    g_comp->ctl.in.Ping = [] {};
     g_comp->api.in.Use = [](Id who) {
         if (!vmon::in_dispatcher) violation("in-event-outside-dispatcher", -1, static_cast<int>(who.id), 0);
         if (g_owner.load() != who.id) { violation("harness-client-used-without-claim", g_owner.load(), static_cast<int>(who.id), 0); return; }
